@@ -201,6 +201,38 @@ def check(ctx):
     ctx.trusted += ["sa/wiring_ref.json (registration table)"]
 
 
+def _no_fallthrough(body):
+    last = body[-1] if body else None
+    if isinstance(last, (ast.Raise, ast.Return)):
+        return True
+    return isinstance(last, ast.Expr) and isinstance(last.value, ast.Call) and isinstance(last.value.func, ast.Attribute) and last.value.func.attr == "_parse_error"
+
+
+def _eval_len(t, L):
+    """truth value of a test on the scope stack when it holds L scopes; None = the test does not speak about it"""
+    if isinstance(t, ast.UnaryOp) and isinstance(t.op, ast.Not):
+        v = _eval_len(t.operand, L)
+        return None if v is None else not v
+    if isinstance(t, ast.BoolOp):
+        vs = [_eval_len(v, L) for v in t.values]
+        if isinstance(t.op, ast.And):
+            return False if any(v is False for v in vs) else (None if any(v is None for v in vs) else True)
+        return True if any(v is True for v in vs) else (None if any(v is None for v in vs) else False)
+    if S.unparse(t) == "self._scope_stack":
+        return L > 0
+    if isinstance(t, ast.Compare) and len(t.ops) == 1:
+        l, r = t.left, t.comparators[0]
+        op = type(t.ops[0])
+        flip = {ast.Lt: ast.Gt, ast.Gt: ast.Lt, ast.LtE: ast.GtE, ast.GtE: ast.LtE, ast.Eq: ast.Eq, ast.NotEq: ast.NotEq}
+        if S.unparse(r) == "len(self._scope_stack)" and op in flip:
+            l, r, op = r, l, flip[op]
+        if S.unparse(l) == "len(self._scope_stack)" and isinstance(r, ast.Constant) and isinstance(r.value, int) and not isinstance(r.value, bool):
+            k = r.value
+            f = {ast.LtE: L <= k, ast.Lt: L < k, ast.Eq: L == k, ast.GtE: L >= k, ast.Gt: L > k, ast.NotEq: L != k}.get(op)
+            return f
+    return None
+
+
 def scope_stack_never_empty(ctx, rid):
     """Mechanical backing of 'the scope stack is never empty': it shrinks only in _pop_scope, after a guard that raises while its length is <= 1."""
     px = S.module("c_parser")
@@ -226,18 +258,37 @@ def scope_stack_never_empty(ctx, rid):
             b = getattr(par, field, None)
             if isinstance(b, list) and any(x is st for x in b):
                 blk = b
+        # path condition of the statement: tests of the enclosing ifs (negated in an else branch) and the negated tests of earlier sibling ifs whose
+        # body cannot fall through (it ends in _parse_error / raise / return).  The stack holds >= 1 scope by induction, so the path condition has
+        # to exclude length 1 (the file scope is never popped) and to admit length 2 (a nested scope is).
         guarded = False
-        if mname == "_pop_scope" and blk is not None:
-            for sib in blk[:[i for i, x in enumerate(blk) if x is st][0]]:
-                if isinstance(sib, ast.If) and isinstance(sib.test, ast.Compare) and len(sib.test.ops) == 1 and S.unparse(sib.test.left) == "len(self._scope_stack)" \
-                        and isinstance(sib.test.comparators[0], ast.Constant) and isinstance(sib.test.comparators[0].value, int) \
-                        and any(isinstance(c, ast.Call) and isinstance(c.func, ast.Attribute) and c.func.attr == "_parse_error" for s2 in sib.body[-1:] for c in ast.walk(s2)):
-                    k = sib.test.comparators[0].value
-                    op = type(sib.test.ops[0])
-                    holds = {ast.LtE: lambda L: L <= k, ast.Lt: lambda L: L < k, ast.Eq: lambda L: L == k, ast.GtE: lambda L: L >= k, ast.Gt: lambda L: L > k, ast.NotEq: lambda L: L != k}.get(op)
-                    # the stack holds >= 1 scope by induction, so the guard has to fire exactly when one is left
-                    if holds is not None and holds(1) and not holds(2):
-                        guarded = True
+        if mname == "_pop_scope":
+            conds = []
+            cur = st
+            this_fn = px.method("CParser", mname)
+            while cur is not this_fn:
+                par = cur._parent
+                if isinstance(par, ast.If):
+                    if any(x is cur for x in par.body):
+                        conds.append((par.test, True))
+                    elif any(x is cur for x in par.orelse):
+                        conds.append((par.test, False))
+                for field in ("body", "orelse"):
+                    b2 = getattr(par, field, None)
+                    if isinstance(b2, list) and any(x is cur for x in b2):
+                        for sib in b2[:[i for i, x in enumerate(b2) if x is cur][0]]:
+                            if isinstance(sib, ast.If) and not sib.orelse and _no_fallthrough(sib.body):
+                                conds.append((sib.test, False))
+                cur = par
+            def admits(L):
+                r = True
+                for t, want in conds:
+                    v = _eval_len(t, L)
+                    if v is None:
+                        continue          # unrelated test: no constraint
+                    r = r and (v == want)
+                return r
+            guarded = bool(conds) and not admits(1) and admits(2) and admits(3)
         ctx.oblige(rid, f"{mname}: `{S.unparse(n)[:50]}` cannot remove the file scope", guarded, sample={"rule": rid, "method": mname, "construct": S.unparse(n)[:60], "verdict": "guarded: raises ParseError while one scope is left" if guarded else "UNGUARDED"})
         if not guarded:
             ok_all = False
